@@ -1356,7 +1356,28 @@ fn session(ctx: &Ctx, kernel: &K) -> WorldResult {
     ensure_signal_hook_installed();
 
     kernel.borrow_mut().constructing = true;
+    // fault: the process runs out of file descriptors somewhere inside the constructor (it
+    // creates two socket pairs after it has entered raw mode)
+    let nofile_saved = {
+        let mut k = kernel.borrow_mut();
+        if k.src.chance(1, 24) {
+            let highest = (0..1024).rev().find(|fd| unsafe { libc::fcntl(*fd, libc::F_GETFD) } != -1).unwrap_or(2);
+            let extra = k.src.draw(6) as u64;
+            let mut old = libc::rlimit { rlim_cur: 0, rlim_max: 0 };
+            unsafe { libc::getrlimit(libc::RLIMIT_NOFILE, &mut old) };
+            let low = libc::rlimit { rlim_cur: highest as u64 + 1 + extra, rlim_max: old.rlim_max };
+            unsafe { libc::setrlimit(libc::RLIMIT_NOFILE, &low) };
+            k.src.fault("file-descriptors-exhausted-during-construction");
+            k.src.log(|| format!("RLIMIT_NOFILE lowered: {} more descriptor(s) available", extra));
+            Some(old)
+        } else {
+            None
+        }
+    };
     let built = guarded(|| SystemTerminal::new_from_fd(fd));
+    if let Some(old) = nofile_saved {
+        unsafe { libc::setrlimit(libc::RLIMIT_NOFILE, &old) };
+    }
     kernel.borrow_mut().constructing = false;
     let built_info = match &built {
         Ok(Ok(term)) => format!("caps={:?} size={:?} frames_pending={}", term.capabilities(), term.size().ok(), term.frames_pending()),
